@@ -1017,8 +1017,10 @@ void f_switch () {
           l = current_prog->program + offset;
           COPY_INT (&d, end_tab - 4);
           /* d is minimum value - see if in range or not */
-          if (s >= d && l + (s = (s - d) * sizeof (short)) < (end_tab - 4))
+          /* (the distance is computed unsigned: s - d and its byte offset overflow for keys near INT64_MAX) */
+          if (s >= d && (uintptr_t) s - (uintptr_t) (intptr_t) d < (uintptr_t) (end_tab - 4 - l) / sizeof (short))
             {
+              s = (s - d) * sizeof (short);
               COPY_SHORT (&offset, &l[s]);
               if (offset)
                 {
